@@ -399,9 +399,9 @@ func TestC17SecretSharing(t *testing.T) {
 	for _, gr := range groups() {
 		gr := gr
 		t.Run(gr.name, func(t *testing.T) {
-			n := vlib.N(500, 2500)
+			n := vlib.N(500, 600)
 			if gr.name == "P521" || gr.name == "P384" {
-				n = vlib.N(300, 1500)
+				n = vlib.N(300, 250)
 			}
 			vlib.Check(t, n, func(t *rapid.T) { ssCase(t, gr, maxN) })
 		})
@@ -703,7 +703,7 @@ func TestC17ThresholdRSA(t *testing.T) {
 	}
 	vlib.Selftest("c17 RSA key pool loads and validates (crypto/rsa.Validate)", "ok")
 	sub := "tssrsa/drawn"
-	vlib.Check(t, vlib.N(200, 900), func(t *rapid.T) {
+	vlib.Check(t, vlib.N(200, 300), func(t *rapid.T) {
 		var l int
 		switch rapid.IntRange(0, 3).Draw(t, "lKind") {
 		case 0:
